@@ -219,8 +219,15 @@ func (v *VOS) pwrite(o *OFD, src Slice, off int64) {
 	if n == 0 {
 		return
 	}
-	// resolve crash-image sectors being overwritten (content semantics)
-	r.vosTouch(f, off, n)
+	// crash-image sectors: fully overwritten ones need no resolution, partially overwritten ones do
+	if len(f.unresolved) != 0 {
+		for s := off / sectorSize; s <= (off+n-1)/sectorSize; s++ {
+			if s*sectorSize >= off && (s+1)*sectorSize <= off+n {
+				delete(f.unresolved, s)
+			}
+		}
+		r.vosTouch(f, off, n)
+	}
 	c := f.content
 	so := r.access(src.O, src.Off, n, false)
 	c.ensure(off + n)
@@ -904,6 +911,18 @@ func init() {
 		}
 		return Slice{O: o, Len: f.size, Cap: f.size}
 	}
+	// FileView(path): a read-only window onto the file's bytes (lazy: crash-image sectors are
+	// resolved only when actually read)
+	I[zz+"FileView"] = func(fr *frame, fn *ssa.Function, args []Value) Value {
+		r := fr.r
+		f := r.vos.files[argStr(args[0])]
+		if f == nil {
+			return Slice{}
+		}
+		r.nextObj++
+		view := &Obj{ID: r.nextObj, Size: f.size, Alias: f.content, File: f, RO: true, Tag: "fileview:" + f.name}
+		return Slice{O: view, Len: f.size, Cap: f.size}
+	}
 	I[zz+"WriteFileBytes"] = func(fr *frame, fn *ssa.Function, args []Value) Value {
 		r := fr.r
 		name := argStr(args[0])
@@ -960,12 +979,14 @@ func init() {
 		r := fr.r
 		depth := fr.g.depth
 		crashed := false
+		r.vos.crashArmed = true
 		func() {
 			defer func() {
 				if p := recover(); p != nil {
 					if _, ok := p.(crashSignal); ok {
 						crashed = true
 						fr.g.depth = depth
+						fr.g.top = fr.caller
 						return
 					}
 					panic(p)
@@ -975,6 +996,7 @@ func init() {
 			// also allow dying right after the last event
 			r.vos.crashPoint("end")
 		}()
+		r.vos.crashArmed = false
 		if crashed {
 			r.vos.crashImage()
 			r.reach["crashed"]++
